@@ -102,6 +102,8 @@ inductive Step10
   | tornWrite (batch : List Point) (opened : Bool) (after : Seen)
   /-- `Shard.DeleteMeasurement m` crashed in the middle of that append; then restart -/
   | tornDrop (m : String) (opened : Bool) (after : Seen)
+  /-- two writers ran `Shard.WritePoints a` and `Shard.WritePoints b` concurrently -/
+  | race (a b : List Point) (ra rb : WriteRes) (after : Seen)
   /-- schema dump / read / snapshot: operations that must not change anything -/
   | look (after : Seen)
   deriving Repr
